@@ -4,25 +4,58 @@ import json, os, sys
 HERE = os.path.dirname(os.path.dirname(os.path.abspath(__file__)))
 
 E2 = "E2-enum: z3 AllSAT over action-template holes with read-set cube blocking; each cube = one native run of the real engine; final unsat certifies coverage of the bounded space"
+E1 = "E1: CrossHair (z3) symbolic execution of the real functions on typed symbolic arguments, per-obligation exhaustion of all paths within stated bounds, reachability twin per obligation, native replay of counterexamples"
+E3 = "E3: the real arithmetic kernels executed on z3-backed numbers (lib/symlite.py): path-by-path symbolic execution, negated property unsat per path; integer datetime model validated differentially"
+E4 = "E4: finite-table equivalence as a z3 String-theory query generated from both sources"
+
+def e2(text, note, ref):
+  return ("exploration", E2, text + " Exhaustive within the stated pools when the evidence says exhaustive=true; says nothing outside them.", note, ref)
+
+def e1(text, note, ref):
+  return ("other", E1, text, note, ref)
+
+BND = "fixtures <= 3 user tables / <= 4 rows; pools of names/types/values/formulas; friendly_traceback stand-in; encoded-cell equality"
 CHECKS = {
-  # pid: (category, technique, text, note, design_ref)
-  "C01": ("exploration", E2,
-          "Every bundle in a bounded template space (1 action with full pools; 2-3 actions with small pools; 5-8 fixtures) is run on the real engine; "
-          "the returned undo is applied and all tables incl. metadata must equal the pre-state; histories are undone in reverse. "
-          "Exhaustive within the stated pools when evidence says exhaustive=true; says nothing outside them.",
-          "fixtures <= 3 user tables / <= 4 rows; pools of names/types/values/formulas; friendly_traceback stand-in; encoded-cell equality", "C01"),
-  "C02": ("exploration", E2,
-          "Same bundle space; every stored action since InitNewDoc is replayed into the repository's TableDataSet interpreter, which must equal the engine after every bundle.",
-          "same bounds as C01; replica = sandbox/grist/table_data_set.py", "C02"),
-  "C03": ("exploration", E2,
-          "Same bundle space; after undo, ApplyDocActions(stored) must reproduce the post-bundle snapshot.",
-          "same bounds as C01", "C03"),
-  "C08": ("exploration", E2,
-          "Same bundle space incl. rejected bundles; after success and after rollback build_schema(metadata)==engine.schema, unique (table,colId), no orphan column records.",
-          "same bounds as C01", "C08"),
-  "C31": ("exploration", E2,
-          "Record-edit bundles on documents with formulas and summary tables; direct flags checked against the property's three clauses.",
-          "same bounds as C01 restricted to record edits + column adds/type changes", "C31"),
+  "C01": e2("Every bundle in a bounded template space (1 action med pools on 6 fixtures; 2-action bundles with micro pools) runs on the real engine; the returned undo is applied and all tables incl. metadata must equal the pre-state; histories are undone in reverse.", BND, "C01"),
+  "C02": e2("Same bundle space; every stored action since InitNewDoc is replayed into the repository's TableDataSet interpreter, which must equal the engine after every bundle.", BND + "; replica = sandbox/grist/table_data_set.py", "C02"),
+  "C03": e2("Same bundle space; after undo, ApplyDocActions(stored) must reproduce the post-bundle snapshot.", BND, "C03"),
+  "C04": e2("Bundle holes plus the crash point (target, index j, before/after) are solver variables; all j < J enumerated (J measured per bundle); natural failures included; after a raise: snapshot unchanged, schema consistent, Calculate silent.", BND + "; one fault per run at doc-action boundaries / rebuild_usercode", "C04"),
+  "C05": e2("Edit histories (1 action; 2-action histories with micro pools incl. conditional lookup formulas and duplicate-key payloads) compared after every step with a fresh engine loaded without formula results.", BND + "; error cells compared as 'is an error'", "C05"),
+  "C06": e2("Same histories replayed on a second engine whose work-item order is the k-th permutation (k is a hole); user tables must be equal.", BND + "; 5 (quick) / 23 (thorough) permutation indices", "C06"),
+  "C07": e2("After every history step: fetch -> encode -> marshal -> main._decode_db_value -> fresh engine load + Calculate: no stored actions, identical snapshot.", BND + "; SQLite reduced to marshal of non-primitive cells", "C07"),
+  "C08": e2("Same bundle space incl. rejected bundles; after success and after rollback build_schema(metadata)==engine.schema, unique (table,colId), no orphan column records.", BND, "C08"),
+  "C09": e2("Invariant after every successful bundle on fixtures views/summary/twoway: every metadata Ref/RefList resolves, fields match their section's table, one metadata record + raw section per user table, helper columns still used.", BND, "C09"),
+  "C10": e2("Invariant after every successful bundle: no Ref/RefList cell refers to a row the bundle removed; removal-only bundles leave each RefList = old list minus removed ids (None if empty).", BND, "C10"),
+  "C11": e2("Invariant on fixture twoway after every successful bundle: reverse-linked columns are symmetric.", BND + "; data<->formula switches of linked columns excluded", "C11"),
+  "C12": e2("Invariant after every successful bundle: each summary table == recomputed group-by of its source (keys, uniqueness, groups ascending, no empty groups).", BND + "; Date keys by calendar day; error-valued keys not judged", "C12"),
+  "C13": e2("60 lookupRecords/lookupOne formulas (4 key shapes x 10 order specs) x 3 probes compared with filter + stable sort, before and after an edit; cell contents are holes.", "<= 4 rows; value pools; NaN and incomparable values excluded", "C13"),
+  "C14": e1("find.lt/le/gt/ge/eq and PREVIOUS/NEXT/RANK on symbolic column contents (<= 4 rows), unbounded integer probes, current row; linear-scan oracle.", "stand-in table object; <= 4 (5) rows", "C14"),
+  "C15": e2("Counter-style trigger formulas on fixture trigger; updates of 1-2 columns on 1-2 rows, adds with explicit values, schema changes; compared with a fires/does-not-fire model.", "3 rows; values pool of 4; 7 trigger configurations", "C15"),
+  "C16": e2("27 formula shapes x 8 entities x 14 new names x 3 rename paths: formula values unchanged, only NAME/STRING tokens rewritten.", "programs enumerated (finite grammar); solver = completeness bookkeeping", "C16"),
+  "C17": e1("process_renames with the ACL / dropdown / trigger collectors on a bounded predicate grammar (9 shapes x 17 x 17 atoms), 6 rename scenarios, 5 new names: parsed(new) == old tree with exactly the matching references renamed; unparsable text untouched.", "text realised at ast.parse; engine-level wiring not covered here", "C17"),
+  "C18": e2("All 512 dependency graphs over 3 formula columns x all 6 schedules (+ lookup variant): terminates, CircularRefError exactly on self-dependent cells, normal values elsewhere; a run that does not return is a violation.", "3 columns quick, 4 thorough (time-capped); 2 rows", "C18"),
+  "C19": e2("75 formula texts x 2 placements x payloads: other columns unchanged, engine keeps working; for texts an independent tokenize-based translation compiles, values equal exec() of that translation.", "programs enumerated; f-strings and side-effect texts: isolation only", "C19"),
+  "C20": ("other", E3 + "; plus " + E2, "(a) QF_FPBV lemmas over all doubles for get_range/prevfloat/nextfloat run on FP proxies; (b) prepare_inserts on catalogue (+) ulps lists against the four clauses; (c) position columns distinct and finite on engine runs.", "lists <= 3; keys <= 2; existing positions < 2^53; count = 1 lemma quick, 2 thorough", "C20"),
+  "C21": e1("pick_col_ident / pick_table_ident / pick_col_ident_list on names of length <= 2 (3) over a 16-symbol alphabet incl. non-ASCII, 4 avoid sets: valid, unused case-insensitively, identity on valid unused names.", "alphabet and avoid sets bounded; strings realised at unicodedata.normalize", "C21"),
+  "C22": e1("Every usertypes type x input kind (ints, big ints, bool/None, rationals, special floats, strs len <= 2, numeric strings, lists, dates, special objects): total, lands in the type/alt-text/same error, idempotent.", "per-kind obligations; type index realised", "C22"),
+  "C23": e2("All ordered pairs of 12 column types on 5 columns with 2 symbolic cell contents from a pool: cells == new type's conversion of the old raw values; no other data cell changes.", "fixture basic (+ twoway thorough); pool of 13 values", "C23"),
+  "C24": e1("encode_object on symbolic scalars / lists / dicts / nested values and 58 special values: encoded form marshal-safe (exact builtin types, marshal.dumps succeeds) and encode(decode(encode(v))) == encode(v).", "strings len <= 2; containers len <= 2, depth <= 2", "C24"),
+  "C25": e1("JSON-reading migrations (found by source scan) run with json.loads stubbed to return a symbolic JSON value: total; counterexamples replayed with the real json; plus create_migrations from every start version 0..SCHEMA_VERSION reaching the current schema.", "json stub; 7 scenarios; one user table", "C25"),
+  "C26": e2("Bundles of 1-3 actions from a pool of 16 temp-id actions vs a reference interpretation of temporary ids; undefined negative reference values must be rejected without trace.", "two tables; bundle length <= 3", "C26"),
+  "C27": e2("(existing rows, action, id list of length <= 3 from a pool of 7) for AddRecord/BulkAddRecord/ReplaceTableData: returned ids == created rows, distinct, automatic ids greater than existing; invalid requests rejected without change.", "4 existing-row sets", "C27"),
+  "C28": e2("BulkAddOrUpdateRecord/AddOrUpdateRecord on 3 table contents x require/col_values/options pools vs a 40-line reference upsert.", "lists <= 2", "C28"),
+  "C29": e2("8 read-only calls x tables x columns x rows x 20 autocomplete texts on a restored document with a side-effecting formula: snapshot unchanged, next Calculate silent.", "fixture views + lookupOrAddDerived formula", "C29"),
+  "C31": e2("Record-edit bundles on documents with formulas and summary tables; direct flags checked against the property's clauses.", BND, "C31"),
+  "C32": e1("_parse_open_file with csv.reader stubbed to return a symbolic grid (shapes realised, 1-char cells symbolic, up to 102 filler rows): equal column lengths, one entry per data row, every non-empty cell at its place; replay through the real csv module.", "widths <= 3; whitespace-only cells count as empty", "C32"),
+  "C33": e1("import_json.dumps on symbolic JSON (flat, nested objects, arrays, scalars) with 6 include/exclude options: equal column lengths, rows per item, Ref ids in range, every non-null scalar exactly once.", "keys from 4; rows <= 2; a key is an object in every row or in none", "C33"),
+  "C34": ("other", E3, "ts_to_dt/dt_to_ts round trip, date round trip and 'local time gets an offset in use' for ALL integer timestamps |ts| <= 9e9 s, per zone (62 zones quick, all 594 thorough): one obligation per (zone, property), unsat on every path.", "integer-microsecond datetime model; zones enumerated", "C34"),
+  "C35": ("other", E3, "Schedule.series on symbolic integer start/end for 30+ fixed-length-unit specs x counts 0..3(4) vs the reference occurrence set as an integer formula; 24 invalid specs raise ValueError.", "month/year units and tz-aware starts outside the claim", "C35"),
+  "C36": e1("treeview.fix_indents on symbolic indent lists (len <= 4 quick / 5 thorough, unbounded values) and removal flags: valid tree, never deeper, exactly the violating pages change.", "list length bounded", "C36"),
+  "C37": e1("Replacer / Combiner / nested Replacer on symbolic text (len <= 3 over 'ab$'), patches and offsets: output == direct application; mapped-back patches cover the same source characters; spanning patches refused.", "replacement len <= 1 (2 thorough); zero-width deletion boundary ambiguity accepted", "C37"),
+  "C38": ("other", E4, "schema.py/gen_js_schema.py/usertypes defaults vs schema.ts/gristTypes.ts as z3 String->String functions; exists-key-with-different-image query per table (5 tables) + byte comparison with the generator output.", "finite tables; regex readers of the .ts files", "C38"),
+  "C39": e2("RenameChoices on (Choice cells, ChoiceList cells, filter text, column, rename map) cubes: exactly the mapped values renamed simultaneously in cells and that column's filters, everything else unchanged.", "2 symbolic rows + a removed row; 11 maps; 5 filters", "C39"),
+  "C40": e1("444 predicate expressions (depth <= 2) x symbolic values of $a,$b,user.x (unbounded ints), $c (bool), $s (str len <= 2): parse tree JSON-serialisable and evaluates like Python; 39 non-subset texts raise SyntaxError.", "expression index realised; Python node semantics", "C40"),
+  "C41": e2("fetch_table(query) on (cells of 2 columns, query lists incl. unhashable values, flags) cubes vs a naive filter.", "3 rows; pools of 6/5 cells", "C41"),
 }
 NOT_APPLICABLE = {
   "C30": "The quantified variable is CPython's per-process hash seed, fixed before repository code runs; set/dict iteration order cannot be made a solver variable by executing /repo's functions symbolically. Cross-process diffing is sampling, a different technique.",
